@@ -634,8 +634,8 @@ theorem cmp_refines (op : CmpOp) (k : Kind) (x y : BitVec 64) :
     vmCmp op k x y = cmp op (val k x) (val k y) := by
   unfold vmCmp condOf cmp val
   cases hs : k.signed <;> cases op <;>
-    simp [vmIfInt, BitVec.slt_eq_decide, BitVec.sle_eq_decide, BitVec.ult_eq_decide, BitVec.ule_eq_decide,
-      beq_toInt, beq_toNat, bne_toInt, bne_toNat]
+    simp [vmIfInt, cmpCond, srcCmpOf, BitVec.slt_eq_decide, BitVec.sle_eq_decide, BitVec.ult_eq_decide,
+      BitVec.ule_eq_decide, beq_toInt, beq_toNat, bne_toInt, bne_toNat]
 
 
 /-! ## the generated terms are the reference forms (checked by normalisation, per opcode and kind) -/
